@@ -108,6 +108,7 @@ fn main() {
             rep.rule = "part 0: every interleaving at await granularity (choice = which runnable task the mini executor polls next), part 1: interleavings within a preemption bound with 2-3 barriers built up front; 2 source tasks (3 triggers) issuing trigger / trigger_noop with values from {1,2} and a test task running every script of length 3 (quick) / 4 (thorough) over {build Noop =1, build Suspend any, build Suspend =1, build Panic =2, wait on 1st/2nd live barrier, drop oldest handle, drop 1st live barrier}; the event log is replayed against a sequential reference registry".into();
             run_dfs(&mut rep, "barriers-all-interleavings", 0, wall, move |ch| c20::scenario(ch, thorough, 0));
             run_dfs(&mut rep, "barriers-registry-preemption-bounded", tier.pick(2, 4), wall, move |ch| c20::scenario(ch, thorough, 1));
+            run_dfs(&mut rep, "fs-corruption-hook-through-sim", 0, wall, move |ch| c20::fs_hook_scenario(ch, thorough));
             rep.finish();
         }
         "C01" => {
@@ -270,8 +271,12 @@ fn replay(path: &str) {
         "C05" => timegrid::c05_scenario(&mut ch, thorough),
         "C11" => timegrid::c11_scenario(&mut ch, thorough),
         "C20" => {
-            let part = if v["scenario"].as_str().map(|s| s.contains("part=1")).unwrap_or(false) { 1 } else { 0 };
-            c20::scenario(&mut ch, thorough, part)
+            let sc = v["scenario"].as_str().unwrap_or("");
+            if sc.contains("part=2") {
+                c20::fs_hook_scenario(&mut ch, thorough)
+            } else {
+                c20::scenario(&mut ch, thorough, if sc.contains("part=1") { 1 } else { 0 })
+            }
         }
         "C15" => {
             if v["scenario"].as_str().map(|s| s.starts_with("c15-ports")).unwrap_or(false) {
